@@ -199,7 +199,12 @@ def run_case(ctx, case):
     f = make_array(case['arr'], L, rng, d.r)
     g = rng.normal(size=L)
     fk = d.to_fourier(f)
+    fk_keep = np.array(fk, copy=True)
+    f_keep = np.array(f, copy=True)
     back = d.to_real(fk)
+    gk = d.to_fourier(g)                  # a later transform must not disturb earlier results or the caller's inputs
+    if not np.array_equal(fk, fk_keep) or not np.array_equal(f, f_keep) or np.shares_memory(fk, gk) or np.shares_memory(fk, f):
+        ctx.violation('transform-result-or-input-overwritten', 'to_fourier/to_real changed its input or an earlier result (shared buffer?) (L=%d)' % L)
     tol = tolscale * max(np.abs(f).max(), 1e-300)
     e1 = np.abs(back - f).max() / tol
     e2 = np.abs(d.to_fourier(d.to_real(f)) - f).max() / tol
